@@ -1,7 +1,7 @@
 """C20 -- UDP and SCMP checksums verify and detect corruption.
 
 1. TLC explores the code-shaped computation (WireCsum.tla: pseudoHeaderChecksum ; upperLayerChecksum
-   with its safe boundary and odd tail ; foldChecksum) exhaustively for all payloads up to 3 (quick) /
+   with its safe boundary and odd tail ; foldChecksum) exhaustively for all payloads up to 2 (quick) /
    4 (thorough) bytes over a boundary alphabet x address vectors x UDP/SCMP, against the *documented*
    pseudo-header layout: the total folds to 0xFFFF and every single-bit flip of the covered data
    changes it.  The variant that drops the odd last byte is run to show the counterexample (note).
@@ -30,7 +30,7 @@ def run(c):
     else:
         trace = c.scratch + "/csum.ndjson"
         c.run_driver(drv, ["-mode", "csum", "-out", trace, "-n", 600 if c.thorough else 110])
-    r = _wire.validate_table(c, "WireCsumTrace", "WireCsumTrace.cfg", trace, min_chunk=20)
+    r = _wire.validate_table(c, "WireCsumTrace", "WireCsumTrace.cfg", trace, chunks=6 if c.thorough else 2, min_chunk=20)
     _wire.judge_table(c, r, trace, maxlen=200)
     n = flips = 0
     shapes = set()
